@@ -176,7 +176,7 @@ def build_events(spec, evs, shift=0, order=None):
     how = spec.get("bulk_add", True)
     if how == "mixed":
         # some events one by one (in the generated, non-chronological order), the rest in one batch
-        k = max(1, len(events) // 3)
+        k = max(1, len(events) * int(spec.get("mixed_share", 1)) // 4)
         for e in events[:k]:
             q.add_event(e)
         q.add_events(events[k:])
@@ -418,6 +418,10 @@ def build_sim(spec, observer=None, crash_at=None, shift=0, net_cls=ChargingNetwo
     net = build_network(spec, net_cls, station_order, constraint_order)
     evs = {s["id"]: build_ev(s, shift) for s in spec["sessions"]}
     q = build_events(spec, evs, shift, event_order)
+    late = None
+    if spec.get("late_fill"):
+        # the simulator is built around a still-empty queue object which the caller fills afterwards
+        late, q = q, EventQueue()
     if scheduler is None:
         scheduler = make_scheduler(spec, observer, crash_at, shift)
     sim = Simulator(
@@ -430,6 +434,8 @@ def build_sim(spec, observer=None, crash_at=None, shift=0, net_cls=ChargingNetwo
         store_schedule_history=bool(spec.get("store_history")),
         verbose=bool(spec.get("verbose")),
     )
+    if late is not None:
+        q.add_events([e for _, e in late.queue])
     return Handle(spec, sim, net, evs, scheduler)
 
 
@@ -768,12 +774,14 @@ def scenarios(
         "inert": inert,
         "verbose": extras and draw(st.integers(0, 5)) == 0,
         "pre_unplug": draw(st.sampled_from([0, 0, 0, 1, 3])) if extras else 0,
+        "late_fill": extras and draw(st.integers(0, 4)) == 0,
         "stations": stations,
         "constraints": cons,
         "sessions": sessions,
         "recomputes": recomputes,
         "event_order": list(draw(st.permutations(range(nev)))),
-        "bulk_add": draw(st.sampled_from([True, False, "mixed"])),
+        "bulk_add": draw(st.sampled_from([True, False, "mixed", "mixed"])),
+        "mixed_share": draw(st.integers(1, 2)),
         "scheduler": sch,
         "zs": draw(st.lists(st.sampled_from([0.0, 0.3, -0.3, 1.0, -1.0, 3.0, -3.0]), min_size=1, max_size=6)),
         # the simulator keeps the returned mapping object itself in schedule_history, so a scheduler
@@ -833,4 +841,6 @@ def scenario_labels(spec):
         labels.add("scheduler_refills_one_mapping")
     if spec.get("bulk_add") == "mixed":
         labels.add("events_added_singly_and_in_bulk")
+    if spec.get("late_fill"):
+        labels.add("queue_filled_after_the_simulator_was_built")
     return labels
